@@ -1,5 +1,5 @@
 --------------------------- MODULE Trace_SendLoop ---------------------------
-EXTENDS SendLoop, Json, IOUtils, TraceUtil
+EXTENDS SendLoop, ConnLifecycle, Json, IOUtils, TraceUtil
 Rec == ndJsonDeserialize(IOEnv.TRACE)
 VARIABLES l, cfg, st
 tvars == <<l, cfg, st>>
@@ -16,6 +16,12 @@ Step(e) ==
          /\ st' = AfterHop(cfg, st) /\ UNCHANGED cfg
     [] e.ev = "done" ->
          /\ \A g \in DoneViolations(cfg, st, e) : Viol(l, cfg.id, DoneProp(g), g, "")
+         /\ UNCHANGED <<cfg, st>>
+    \* the transport-level life of the connections this send() created (ConnLifecycle.tla)
+    [] e.ev = "life" ->
+         /\ \A v \in Fold(InitLife, e.toks, 1) :
+               IF v[2] = "L00_recordable" THEN Assert(FALSE, <<"lifecycle recording is malformed", l, cfg.id, v[1]>>)
+               ELSE Viol(l, cfg.id, LifeProp(v[2]), v[2], "token " \o ToString(v[1]))
          /\ UNCHANGED <<cfg, st>>
 
 TraceNext == l <= Len(Rec) /\ l' = l + 1 /\ Step(Rec[l])
